@@ -397,6 +397,70 @@ __CPROVER_ensures((VF_RAD_CHAIN_BLK && vf_rad_m < 16) ==> buf[16 * vf_rad_blk + 
 #endif
 ;
 
+/* ---- Request / Response Authenticator (RFC 2865 3, RFC 2866 3, RFC 5176 2.3) ----
+ * With md5_* replaced by the ghost-stream contracts of stubs/radius_md5.h (-DVF_RAD_MD5_CHAIN):
+ * the input of the one MD5 computation, observed at the ghost position vf_md5_k, is
+ *     Code || Identifier || Length || A || Attributes || Secret
+ * A = the packet's own field (pkt_authenticator_inside: the field already holds the request
+ * authenticator / zeros), 16 zero bytes (Accounting-, Disconnect-, CoA-Request), or the
+ * authenticator of the request (responses).  Access-Request, Status-Server/-Client carry a random
+ * authenticator: returned as is, nothing hashed. */
+#ifdef VF_RAD_MD5_CHAIN
+#define VF_RAD_CODE_RANDOM(c)	((c) == 1 || (c) == 12 || (c) == 13)
+#define VF_RAD_CODE_ZEROAUTH(c)	((c) == 4 || (c) == 40 || (c) == 43)
+#define VF_RAD_CODE_REPLY(c)	((c) == 2 || (c) == 3 || (c) == 11 || (c) == 5 || (c) == 41 || (c) == 42 || (c) == 44 || (c) == 45)
+/* byte k of Code||Id||Len||A||Attrs||Secret */
+#define VF_RAD_AUTH_INPUT(k, pkt, inside, pkt_req, key)				\
+	(((k) < 4 || ((k) >= 20 && (k) < VF_RAD_LEN(pkt))) ? VF_RAD_B(pkt, k) :	\
+	 ((k) < 20) ? ((inside) ? VF_RAD_B(pkt, k) : VF_RAD_CODE_ZEROAUTH(VF_RAD_B(pkt, 0)) ? (uint8_t)0 : VF_RAD_B(pkt_req, k)) : \
+	 (key)[(k) - VF_RAD_LEN(pkt)])
+static inline int
+radius_pkt_authenticator_calc(rad_pkt_hdr_p pkt, uint8_t *key, size_t key_len,
+    int pkt_authenticator_inside, rad_pkt_hdr_p pkt_req, uint8_t *authenticator)
+__CPROVER_requires(key_len <= VF_RAD_PKT_MAX)
+__CPROVER_requires(VF_RAD_PKT(pkt))
+__CPROVER_requires(key == NULL || key_len == 0 || __CPROVER_is_fresh(key, key_len))
+__CPROVER_requires(pkt_req == NULL || __CPROVER_is_fresh(pkt_req, VF_RAD_HDR_SIZE))
+__CPROVER_requires(__CPROVER_is_fresh(authenticator, 16))
+__CPROVER_requires(vf_md5_n == 0)
+__CPROVER_assigns(__CPROVER_object_upto(authenticator, 16))
+__CPROVER_assigns(VF_MD5_GHOST_ASSIGNS)
+__CPROVER_ensures(VF_RV == 0 || VF_RV == EINVAL)
+__CPROVER_ensures((pkt == NULL || (key == NULL && key_len != 0)) ==> VF_RV == EINVAL)
+__CPROVER_ensures((pkt != NULL && !(key == NULL && key_len != 0) && VF_RAD_CODE_RANDOM(VF_RAD_B(pkt, 0))) ==>
+    (VF_RV == 0 && vf_md5_n == 0 && (vf_rad_m >= 16 || authenticator[vf_rad_m] == VF_RAD_B(pkt, 4 + vf_rad_m))))
+#define VF_RAD_AUTH_HASHED(pkt)	(VF_RV == 0 && !VF_RAD_CODE_RANDOM(VF_RAD_B(pkt, 0)))
+__CPROVER_ensures(VF_RAD_AUTH_HASHED(pkt) ==> (vf_md5_n == 1 && vf_md5_len[0] == VF_RAD_LEN(pkt) + key_len &&
+    VF_MD5_DIG_IS(authenticator, 0)))
+__CPROVER_ensures((VF_RAD_AUTH_HASHED(pkt) && pkt_authenticator_inside == 0) ==>
+    (VF_RAD_CODE_ZEROAUTH(VF_RAD_B(pkt, 0)) || (VF_RAD_CODE_REPLY(VF_RAD_B(pkt, 0)) && pkt_req != NULL)))
+__CPROVER_ensures((VF_RAD_AUTH_HASHED(pkt) && vf_md5_k < VF_RAD_LEN(pkt) + key_len) ==>
+    vf_md5_at[0] == VF_RAD_AUTH_INPUT(vf_md5_k, pkt, pkt_authenticator_inside != 0, pkt_req, key))
+;
+
+/* verification compares ALL 16 bytes of the packet's authenticator with the computed value */
+static inline int
+radius_pkt_authenticator_chk(rad_pkt_hdr_p pkt, uint8_t *key, size_t key_len,
+    int pkt_authenticator_inside, rad_pkt_hdr_p pkt_req)
+__CPROVER_requires(key_len <= VF_RAD_PKT_MAX)
+__CPROVER_requires(VF_RAD_PKT(pkt))
+__CPROVER_requires(key == NULL || key_len == 0 || __CPROVER_is_fresh(key, key_len))
+__CPROVER_requires(pkt_req == NULL || __CPROVER_is_fresh(pkt_req, VF_RAD_HDR_SIZE))
+__CPROVER_requires(vf_md5_n == 0)
+__CPROVER_assigns(VF_MD5_GHOST_ASSIGNS)
+__CPROVER_ensures(VF_RV == 0 || VF_RV == EINVAL || VF_RV == EBADMSG)
+__CPROVER_ensures(pkt == NULL ==> VF_RV == EINVAL)
+__CPROVER_ensures((pkt != NULL && VF_RAD_CODE_RANDOM(VF_RAD_B(pkt, 0))) ==> (VF_RV == 0 && vf_md5_n == 0))
+/* accepted <=> the field equals the digest of Code||Id||Len||A||Attrs||Secret, byte for byte */
+__CPROVER_ensures((pkt != NULL && !VF_RAD_CODE_RANDOM(VF_RAD_B(pkt, 0)) && VF_RV != EINVAL) ==>
+    (vf_md5_n == 1 && vf_md5_len[0] == VF_RAD_LEN(pkt) + key_len &&
+     ((VF_RV == 0) == VF_MD5_DIG_IS(&VF_RAD_B(pkt, 4), 0))))
+__CPROVER_ensures((pkt != NULL && !VF_RAD_CODE_RANDOM(VF_RAD_B(pkt, 0)) && VF_RV != EINVAL &&
+    vf_md5_k < VF_RAD_LEN(pkt) + key_len) ==>
+    vf_md5_at[0] == VF_RAD_AUTH_INPUT(vf_md5_k, pkt, pkt_authenticator_inside != 0, pkt_req, key))
+;
+#endif /* VF_RAD_MD5_CHAIN */
+
 /* value bytes the attribute occupies: User-Password is padded to 16 (RFC 2865 5.2), a
  * Message-Authenticator placeholder is 16 zero bytes, everything else as given */
 #define VF_RAD_ADD_VLEN(type, len)						\
